@@ -267,7 +267,7 @@ var hostile = []string{"'", "\"", "`", "\\", "-", "/", "*", ";", "(", ")", " ", 
 
 var idioms = []string{
 	"' OR 1=1 --", "x' , (select 1) as y, '", "*/", "/*", "\\'", "\\", "a\\", "\\\\", "\\\\'", "'; DROP TABLE t; --", "\" OR \"\"=\"", "`; `", "--", "-- x", "#", "# x",
-	"{p:String}", "$1", "?", "a\tb", "it's", "say \"hi\"", "a``b", "''", "\"\"", "\\n", "\\x41", "\\0", "x\\", "%s", "\r\n", "ünï\xc3", "\xe2\x28\xa1", "0x", "1e", "SELECT", "select * from t",
+	"{p:String}", "$1", "?", "a\tb", "it's", "say \"hi\"", "a``b", "''", "\"\"", "\\n", "\\x41", "\\0", "x\\", "%s", "%d", "%v", "%%", "100%", "a%sb", "%!", "\r\n", "ünï\xc3", "\xe2\x28\xa1", "0x", "1e", "SELECT", "select * from t",
 	"\u2018", "\u2019", "\u201c", "\u201d", "x\u2019 or b == \u2018y", "\u201d or \u201c", "\uff07", "\u00b4", "\u02bc", "a\u2019", "\u2018a",
 	"a'b\"c`d\\e", "'''", "\"\"\"", "```", "\\\\\\", "\\'\\\"\\`", "end*/ x /*", "x'--", "x\"--", "x`--", ") AS \"y\", (", "\x00'", "'\x00",
 }
@@ -503,6 +503,29 @@ func PlacementSources() []string {
 				}
 				c := &Case{Kind: kind, DQ: len(f)%2 == 0}
 				out = append(out, strings.Replace(t, "\x01", holeText(c, f), 1))
+			}
+		}
+	}
+	return out
+}
+
+// SkeletonSources are the skeleton programs with the idiom contents (injection
+// idioms, format verbs, placeholders, typographic quotes) at their string and
+// name holes, for checks that judge any successful compilation.
+func SkeletonSources() []string {
+	var out []string
+	fills := append(append([]string{}, idioms...), "%d", "%v", "%!", "%%", "100%", "%[1]s", "%", "a%sb", "{}", "{0}", "${x}", "$(x)", "\\%")
+	for _, sk := range skels {
+		for _, f := range fills {
+			switch sk.kind {
+			case "str":
+				for _, dq := range []bool{false, true} {
+					out = append(out, Print(sk.mk(StrLit(f, dq), Ident{}), Layout{Mode: 0}).Src)
+				}
+			case "id":
+				if f != "" && !strings.Contains(f, "\n") {
+					out = append(out, Print(sk.mk(nil, Ident{Name: f, Quoted: true}), Layout{Mode: 0}).Src)
+				}
 			}
 		}
 	}
